@@ -507,8 +507,16 @@ func (c *Ctx) quantifiedAssumptions() int {
 // is dropped: an unsat answer of the relaxed query is still a proof (fewer
 // assumptions), and its sat answers come with a usable model.
 func (c *Ctx) query(goalNeg string, extra []string, wantModel bool, relax bool) string {
+	return c.queryN(goalNeg, extra, wantModel, relax, len(c.asserts))
+}
+
+// queryN uses only the first n assumptions (those established before the obligation's program point).
+func (c *Ctx) queryN(goalNeg string, extra []string, wantModel bool, relax bool, n int) string {
 	var body strings.Builder
-	for _, a := range c.asserts {
+	if n <= 0 || n > len(c.asserts) {
+		n = len(c.asserts)
+	}
+	for _, a := range c.asserts[:n] {
 		if relax && hasQuant(a) {
 			continue
 		}
@@ -527,6 +535,7 @@ func (c *Ctx) query(goalNeg string, extra []string, wantModel bool, relax bool) 
 		body.WriteString(")\n")
 	}
 	bodyS := body.String()
+	scanS := bodyS
 	var b strings.Builder
 	b.WriteString("(set-option :produce-models true)\n")
 	b.WriteString("(set-logic ALL)\n")
@@ -535,7 +544,13 @@ func (c *Ctx) query(goalNeg string, extra []string, wantModel bool, relax bool) 
 		b.WriteByte('\n')
 	}
 	for _, a := range c.litFacts {
+		if relax && hasQuant(a) {
+			continue
+		}
 		b.WriteString("(assert " + a + ")\n")
+		if hasQuant(a) {
+			scanS += a
+		}
 	}
 	for _, a := range c.finalAxioms() {
 		b.WriteString("(assert " + a + ")\n")
@@ -544,7 +559,7 @@ func (c *Ctx) query(goalNeg string, extra []string, wantModel bool, relax bool) 
 		for _, g := range axiomGroups {
 			hit := false
 			for _, t := range g.triggers {
-				if strings.Contains(bodyS, t) {
+				if strings.Contains(scanS, t) {
 					hit = true
 				}
 			}
@@ -564,11 +579,21 @@ func (c *Ctx) query(goalNeg string, extra []string, wantModel bool, relax bool) 
 }
 
 // needsFull reports whether the full query differs from the relaxed one.
-func (c *Ctx) needsFull(goalNeg string, extra []string) bool {
-	if c.quantifiedAssumptions() > 0 {
-		return true
+func (c *Ctx) needsFull(goalNeg string, extra []string, n int) bool {
+	if n <= 0 || n > len(c.asserts) {
+		n = len(c.asserts)
 	}
-	text := goalNeg + strings.Join(extra, " ") + strings.Join(c.asserts, " ")
+	for _, a := range c.asserts[:n] {
+		if hasQuant(a) {
+			return true
+		}
+	}
+	for _, a := range c.litFacts {
+		if hasQuant(a) {
+			return true
+		}
+	}
+	text := goalNeg + strings.Join(extra, " ") + strings.Join(c.asserts[:n], " ")
 	for _, g := range axiomGroups {
 		for _, t := range g.triggers {
 			if strings.Contains(text, t) {
